@@ -39,6 +39,21 @@ def forced_seen(d):
     return d.get("#forced") is not None or True
 
 
+_LOOPS = {}
+
+
+def _loop_blocks_of(body):
+    k = id(body)
+    if k not in _LOOPS:
+        succ = body.succ_map()
+        pred = body.pred_map()
+        lb = set()
+        for tail, head in cfg.back_edges(succ, 0):
+            lb |= cfg.natural_loop(succ, pred, tail, head)
+        _LOOPS[k] = lb
+    return _LOOPS[k]
+
+
 def walk_main(F, rep, fn, force_fail_bb=None):
     body = fn.body
     succ = body.succ_map()
@@ -52,7 +67,8 @@ def walk_main(F, rep, fn, force_fail_bb=None):
             return None
         n = callee_name(t) or ""
         if n in WRITES:
-            kind = "file" if bb in loop_blocks else "final"
+            # a write inside a loop of the function it stands in (main_inner or a helper introduced later) is a per-file write
+            kind = "file" if int(bb) in _loop_blocks_of(w.body) else "final"
             if "#wrote" not in env:
                 env["#wrote"] = ("w", kind, bb)
             if env.get("#forced") is not None:
@@ -126,6 +142,7 @@ def rule_r1_r3(F, rep):
             n = callee_name(t) or ""
             if n in ("std::io::stdio::stdout", "std::io::stdio::_print", "std::io::stdout"):
                 sites.append((f2, bb, n, t))
+    sites = cg.attribute(F, sites)
     ok = len(sites) == 1 and sites[0][0].q == fn.q
     rep.ob(R1, "stdout|single-writer", ok, {"sites": [(s[0].q, s[2]) for s in sites]})
     if not ok:
@@ -281,10 +298,13 @@ def rule_r2c(F, rep):
         for bb, t in fn.body.calls():
             if (callee_name(t) or "") in STDOUT_W:
                 n += 1
-                rep.ob(R, "%s|stdout-handle" % fn.q, False, {"fn": fn.q, "handle": "std::io::Stdout", "site": fn.body.span(t["sp"])})
-                rep.violation(R, "%s|stdout|closed-descriptor-is-success" % fn.q,
-                              "%s writes the output through std::io::Stdout, which reports success when the descriptor is "
-                              "closed: `rsjsonnet -e 1 >&-` exits 0 with no output" % fn.q, fn.body.span(t["sp"]))
+                # a helper that did not exist on the reference tree is reported under the known function(s) it serves
+                owners = sorted({o[0].q for o in cg.attribute(F, [(fn, bb)])}) or [fn.q]
+                for oq in owners:
+                    rep.ob(R, "%s|stdout-handle" % oq, False, {"fn": fn.q, "handle": "std::io::Stdout", "site": fn.body.span(t["sp"])})
+                    rep.violation(R, "%s|stdout|closed-descriptor-is-success" % oq,
+                                  "%s writes the output through std::io::Stdout, which reports success when the descriptor is "
+                                  "closed: `rsjsonnet -e 1 >&-` exits 0 with no output" % fn.q, fn.body.span(t["sp"]))
     rep.trust("std::io::Stdout/Stderr treat EBADF as success (library/std/src/io/stdio.rs, handle_ebadf)")
 
 
